@@ -49,11 +49,11 @@ func padOracle(kind string, a []string, ether packet.Ether, c int, smac, dmac, s
 
 func runPad4U(a []string) string {
 	c, l, seed := atoi(a[0]), atoi(a[1]), uint64(atoi(a[2]))
-	smac, dmac := marg(lib.UnHex(a[3])), marg(lib.UnHex(a[4]))
+	smac, dmac := marg(unhex(a[3])), marg(unhex(a[4]))
 	ttl := byte(atoi(a[5]))
-	sipb, dipb := lib.UnHex(a[6]), lib.UnHex(a[7])
+	sipb, dipb := unhex(a[6]), unhex(a[7])
 	sp, dp := uint16(atoi(a[8])), uint16(atoi(a[9]))
-	data := sarg(lib.UnHex(a[10]))
+	data := sarg(unhex(a[10]))
 	buf, full, old := mkbuf(c, l, seed)
 	ether := packet.EncodeEther(buf, 0x0800, net.HardwareAddr(smac), net.HardwareAddr(dmac))
 	ipbuf := make([]byte, 28+len(data))
@@ -79,11 +79,11 @@ func runPad4U(a []string) string {
 
 func runPad4E(a []string) string {
 	c, l, seed := atoi(a[0]), atoi(a[1]), uint64(atoi(a[2]))
-	smac, dmac := marg(lib.UnHex(a[3])), marg(lib.UnHex(a[4]))
+	smac, dmac := marg(unhex(a[3])), marg(unhex(a[4]))
 	ttl := byte(atoi(a[5]))
-	sipb, dipb := lib.UnHex(a[6]), lib.UnHex(a[7])
+	sipb, dipb := unhex(a[6]), unhex(a[7])
 	t, code, id, seq := byte(atoi(a[8])), byte(atoi(a[9])), uint16(atoi(a[10])), uint16(atoi(a[11]))
-	data := sarg(lib.UnHex(a[12]))
+	data := sarg(unhex(a[12]))
 	buf, full, old := mkbuf(c, l, seed)
 	ether := packet.EncodeEther(buf, 0x0800, net.HardwareAddr(smac), net.HardwareAddr(dmac))
 	ipbuf := make([]byte, 28+len(data))
